@@ -124,6 +124,11 @@ class CSemantics:
                 if size and size != "vla":
                     self.ensure_constant(size, "Array dimension")
                     size = self.coerce(size, self.get_type(["int"]))
+                if typ.is_void or (
+                    isinstance(typ, types.ArrayType) and typ.size is None
+                ):
+                    location = size.location if size and size != "vla" else None
+                    self.error("Array has incomplete element type", location)
                 typ = types.ArrayType(typ, size)
             elif modifier[0] == "FUNCTION":
                 arguments = modifier[1]
